@@ -18,5 +18,7 @@ def put(d, name, rows):
     return d[:a] + "\n" + "\n".join(rows) + "\n" + d[b:]
 d = put(d, "FIXED-TABLE", fixed)
 d = put(d, "OPEN-TABLE", lines)
+rows = json.load(open('/verif/seeded/index.json'))
+d = put(d, "SEEDS-TABLE", ["| seed | change | caught by | remark |", "|---|---|---|---|"] + ["| %s | %s | %s | %s |" % (r["seed"], r["change"], r["caught_by"], r["remark"]) for r in rows])
 open('/verif/DESIGN.md', 'w').write(d)
 print(len(k['findings']), "open,", len(k['fixed']), "fixed")
